@@ -181,6 +181,20 @@ template <class C> void inv_model() {
     }
 }
 
+// scoped integer channels (user-defined range on an integral base, the integer analogue of float32_t): channel_invert only
+template <class Base, long long Min, long long Max> struct sc_lim_min { static constexpr Base apply() { return (Base)Min; } };
+template <class Base, long long Min, long long Max> struct sc_lim_max { static constexpr Base apply() { return (Base)Max; } };
+template <class Base, long long Min, long long Max> void inv_scoped(const char* name) {
+    using C = gil::scoped_channel_value<Base, sc_lim_min<Base, Min, Max>, sc_lim_max<Base, Min, Max>>;
+    std::vector<long long> tbl;
+    for (long long v = Min; v <= Max; ++v) {
+        long long o = (long long)static_cast<Base>(gil::channel_invert(C((Base)v))) - Min;
+        tbl.push_back(o < -1000000 ? -1000000 : o > 1000000 ? 1000000 : o);
+    }
+    J j; j.str("name", name).str("kind", "u").num("bits", 16).num("w", (long long)sizeof(Base) * 8).boolean("native", false).num("range", Max - Min);
+    J("Inv").raw("m", j.done()).arr("tbl", tbl).emit();
+}
+
 // packed channel references reading/writing through convert: same value_type, exercised for a few shapes
 template <class Ref, class D> void conv_from_ref(const char* refname) {
     using V = typename gil::channel_traits<Ref>::value_type;
@@ -246,6 +260,10 @@ int main(int argc, char** argv) {
             if (mine()) mul_model<C>();
             if (mine()) inv_model<C>();
         });
+        if (mine()) inv_scoped<uint8_t, 16, 235>("scoped<u8,16,235>");
+        if (mine()) inv_scoped<uint16_t, 64, 940>("scoped<u16,64,940>");
+        if (mine()) inv_scoped<int8_t, -100, 50>("scoped<s8,-100,50>");
+        if (mine()) inv_scoped<int16_t, -5, 1000>("scoped<s16,-5,1000>");
     }
     J("End").num("events", vt::T().events).emit();
     vt::T().close();
